@@ -28,7 +28,7 @@ use crate::{
 	hash::IdentityBuildHasher,
 	index::{Address, PlanOutcome},
 	log::{Log, LogAction},
-	multitree::{Children, NewNode, NodeAddress},
+	multitree::{Children, NewNode, NodeAddress, NodeRef},
 	options::{Options, CURRENT_VERSION},
 	parking_lot::{
 		Condvar, Mutex, MutexGuard, RwLock, RwLockUpgradableReadGuard, RwLockWriteGuard,
@@ -639,6 +639,20 @@ impl DbInner {
 
 	// Side-effect free check that `change` is acceptable for column `col`.
 	fn validate_change(&self, col: ColId, change: &Operation<Vec<u8>, Vec<u8>>) -> Result<()> {
+		fn validate_node(node: &NewNode) -> Result<()> {
+			if node.children.len() > u8::MAX as usize {
+				return Err(Error::InvalidInput(format!(
+					"Too many children in tree node: {}",
+					node.children.len()
+				)))
+			}
+			for child in node.children.iter() {
+				if let NodeRef::New(child) = child {
+					validate_node(child)?;
+				}
+			}
+			Ok(())
+		}
 		let options = self
 			.options
 			.columns
@@ -662,10 +676,12 @@ impl DbInner {
 				} else if !options.ref_counted {
 					return Err(Error::InvalidInput(format!("No Rc for column {col}")))
 				},
-			Operation::InsertTree(..) =>
+			Operation::InsertTree(_, node) => {
 				if !multitree {
 					return invalid()
-				},
+				}
+				validate_node(node)?;
+			},
 			Operation::ReferenceTree(..) =>
 				if !multitree {
 					return invalid()
